@@ -464,6 +464,26 @@ def gen_records(rng, nrec):
     return recs
 
 
+class _Rep(list):
+    """a one-element list that answers every index with its element: the single row a lattice record is decided by"""
+
+    def __getitem__(self, i):
+        return list.__getitem__(self, 0)
+
+
+def gen_s2_lattice(rng, rid):
+    """Scale: a full single-species lattice of ~1100 particles whose r_max reaches most of the box, so that one particle has
+    more than 1024 neighbours inside r_max (not a multiple of 1024).  Decided from row 1 alone (LocalOrder!S2PrepOne,
+    S2LatticeLemma)."""
+    import itertools
+    n, a = [10, 10, 11], 10
+    sites = [[a * x for x in s] for s in itertools.product(*[range(k) for k in n])]
+    rng.shuffle(sites)
+    return {"m": "s2", "id": rid, "d": 3, "H": [[(n[i] * a if i == j else 0) for j in range(3)] for i in range(3)],
+            "ppp": [1, 1, 1], "S": 10, "fr": [sites], "types": [1] * len(sites), "sig": [[[3, 10]]],
+            "rn": 1, "rd": 2, "nd": 16, "savegr": False, "lat": {"n": n, "a": a}}
+
+
 def run_trace(chk, lib, recs, tmp):
     res, rejects = common.validate_trace_all("TraceLocalOrder", recs)
     chk.add_tlc(res, "TraceLocalOrder")
@@ -475,6 +495,13 @@ def run_trace(chk, lib, recs, tmp):
     for k, rec in enumerate(recs, start=1):
         case = dict(rec)
         case.update(exps[k])
+        if case.get("lat") is True:            # a lattice record: the row of particle 1 stands for every particle
+            # (the term of ~17 000 leaves is evaluated once; realeval takes a number as a literal)
+            case["s2"] = [[float(ev(case["s2"][0][0]))]]
+            for key in ("contrib", "tie", "cls", "s2"):
+                case[key] = _Rep([_Rep(case[key][0])])
+            chk.extra["s2_lattice_records"] = chk.extra.get("s2_lattice_records", 0) + 1
+            chk.extra["s2_lattice_neighbours_inside_rmax"] = len(case["contrib"][0][0])
         if case.get("skip"):
             chk.tie()
             continue
@@ -559,6 +586,7 @@ def run(tier, replay=None):
         recs = gen_records(rng, nrec)
         for lo in range(0, len(recs), 350):
             run_trace(chk, lib, recs[lo:lo + 350], tmp)
+        run_trace(chk, lib, [gen_s2_lattice(rng, len(recs))], tmp)          # scale (see gen_s2_lattice)
         _spread_clauses(chk)
         return chk.finish()
     finally:
